@@ -186,6 +186,23 @@ pub fn execute(id: usize, tree: &Tree, run: &Run) -> Outcome {
             "immutable" => {
                 let _ = Command::new("chattr").arg("+i").arg(&full).status();
             }
+            "latin1" => {
+                // the last component's `é` (C3 A9 in UTF-8) becomes the single byte E9: a name that is not valid UTF-8
+                use std::os::unix::ffi::{OsStrExt, OsStringExt};
+                let name = full.file_name().unwrap().as_bytes().to_vec();
+                let mut out = vec![];
+                let mut i = 0;
+                while i < name.len() {
+                    if name[i] == 0xC3 && name.get(i + 1) == Some(&0xA9) {
+                        out.push(0xE9);
+                        i += 2;
+                    } else {
+                        out.push(name[i]);
+                        i += 1;
+                    }
+                }
+                let _ = std::fs::rename(&full, full.parent().unwrap().join(std::ffi::OsString::from_vec(out)));
+            }
             _ => {}
         }
     }
@@ -689,8 +706,105 @@ fn c18_multi(stats: &mut Stats) -> Vec<Failure> {
     })
 }
 
+/// C18 addendum: two files of one directory whose `.editorconfig` sections differ, checked in ONE invocation: each diff
+/// reconstructs the text formatted with the file's OWN configuration, and a file that is formatted under its own section is
+/// not reported (whatever the other file's section says, and in either order)
+fn c18_configs(stats: &mut Stats) -> Vec<Failure> {
+    let mut scs = vec![];
+    let ec = "root = true\n[*.lua]\nindent_style = space\n[f.lua]\nindent_size = 2\n[g.lua]\nindent_size = 6\n";
+    for (fname, ftext) in [("formatted", "do\n  x()\nend\n"), ("unformatted", "do\nx( )\nend\n")] {
+        for (gname, gtext) in [("formatted", "do\n      y()\nend\n"), ("unformatted", "do\ny()\ny()\nend\n")] {
+            for args in [vec!["f.lua", "g.lua"], vec!["g.lua", "f.lua"], vec!["."]] {
+                for fmt in ["Unified", "Json", "Summary", "Standard"] {
+                    let mut t = Tree::default();
+                    t.add(".editorconfig", ec.as_bytes());
+                    t.add("f.lua", ftext.as_bytes());
+                    t.add("g.lua", gtext.as_bytes());
+                    let mut argv: Vec<String> = vec!["--check".into(), "--color".into(), "Never".into(), "--output-format".into(), fmt.into(), "--num-threads".into(), "1".into()];
+                    argv.extend(args.iter().map(|x| x.to_string()));
+                    scs.push(Scenario { desc: format!("C18 two-sections f.lua={} g.lua={} args={:?} format={}", fname, gname, args, fmt), tree: t, run: Run { argv, ..Run::default() } });
+                }
+            }
+        }
+    }
+    run_all(scs, "E2-C18", stats, |s, o| {
+        let mut f = vec![];
+        let fmt = s.run.argv[4].as_str();
+        let stdout = String::from_utf8_lossy(&o.stdout).to_string();
+        // (file, original, expected under its own section)
+        let mut files: Vec<(&str, String, String)> = vec![];
+        for (name, iw) in [("f.lua", 2usize), ("g.lua", 6)] {
+            let orig = String::from_utf8_lossy(&s.tree.files.iter().find(|(p, _)| p == name).unwrap().1).to_string();
+            let cfg = Cfg { it: 1, iw, ..Cfg::default() };
+            let Some(exp) = lib_format(&orig, &cfg, 120) else {
+                f.push(("machinery".into(), "the probe does not parse".into()));
+                return f;
+            };
+            files.push((name, orig, exp));
+        }
+        let differing: Vec<&(&str, String, String)> = files.iter().filter(|x| x.1 != x.2).collect();
+        let want = if differing.is_empty() { 0 } else { 1 };
+        if o.code != want {
+            f.push(("exit-status".into(), format!("exit {} with {} differing files", o.code, differing.len())));
+        }
+        match fmt {
+            "Json" => {
+                let mut seen = 0;
+                for l in stdout.lines().filter(|l| !l.trim().is_empty()) {
+                    let Ok(v) = serde_json::from_str::<serde_json::Value>(l) else { continue };
+                    let Some(name) = v.get("file").and_then(|x| x.as_str()) else { continue };
+                    seen += 1;
+                    match files.iter().find(|x| name.ends_with(x.0)) {
+                        Some(x) => match apply_json(&x.1, l) {
+                            Ok(r) if r == x.2 => {}
+                            Ok(r) => f.push(("json-does-not-reconstruct".into(), format!("the record of {} gives {:?}, the file formatted with its own configuration is {:?}", x.0, r, x.2))),
+                            Err(e) => f.push(("json-malformed".into(), e)),
+                        },
+                        None => f.push(("json-unknown-file".into(), name.to_string())),
+                    }
+                }
+                if seen != differing.len() {
+                    f.push(("diff-set".into(), format!("{} files are reported as differing, {} differ", seen, differing.len())));
+                }
+            }
+            "Unified" => {
+                let mut blocks: Vec<String> = vec![];
+                for l in split_keep(&stdout) {
+                    if l.starts_with("--- ") || blocks.is_empty() {
+                        blocks.push(String::new());
+                    }
+                    blocks.last_mut().unwrap().push_str(l);
+                }
+                if blocks.len() != differing.len() {
+                    f.push(("diff-set".into(), format!("{} files are reported as differing, {} differ", blocks.len(), differing.len())));
+                }
+                let mut open: Vec<&(&str, String, String)> = differing.clone();
+                for b in &blocks {
+                    match open.iter().position(|x| apply_unified(&x.1, b).map(|r| r == x.2).unwrap_or(false)) {
+                        Some(k) => {
+                            open.remove(k);
+                        }
+                        None => f.push(("unified-does-not-reconstruct".into(), format!("a diff reconstructs no differing file formatted with its own configuration: {:?}", b))),
+                    }
+                }
+            }
+            _ => {
+                let n = if fmt == "Standard" { stdout.lines().filter(|l| l.starts_with("Diff in ")).count() } else { stdout.lines().filter(|l| l.trim_end().ends_with(".lua")).count() };
+                if n != differing.len() {
+                    f.push(("diff-set".into(), format!("{} files are reported as differing, {} differ", n, differing.len())));
+                }
+            }
+        }
+        if o.before != o.after {
+            f.push(("check-wrote".into(), "the tree changed in --check mode".into()));
+        }
+        f
+    })
+}
+
 pub fn c18(thorough: bool, stats: &mut Stats) -> Vec<Failure> {
     let mut multi = c18_multi(stats);
+    multi.extend(c18_configs(stats));
     let mut all = c18_single(thorough, stats);
     all.append(&mut multi);
     all
@@ -809,6 +923,8 @@ pub enum Kind {
     ReadOnly,
     /// mode 0000, run as an unprivileged user
     Unreadable,
+    /// already formatted, behind a UTF-8 byte order mark: the parser rejects the mark, so the file fails and stays as it is
+    Bom,
 }
 impl Kind {
     pub fn letter(self) -> char {
@@ -830,6 +946,7 @@ impl Kind {
             Kind::ReadOnlyFormatted => 'Z',
             Kind::ReadOnly => 'R',
             Kind::Unreadable => 'X',
+            Kind::Bom => 'O',
         }
     }
     pub fn bytes(self, i: usize) -> Vec<u8> {
@@ -849,6 +966,7 @@ impl Kind {
                 b
             }
             Kind::Missing => vec![],
+            Kind::Bom => format!("{}local x{} = 1\n", '\u{feff}', i).into_bytes(),
             Kind::VerifyFail => format!("--!verif:verify-fail\nlocal   v{}  =  3\n", i).into_bytes(),
             Kind::Crash => format!("--!verif:panic\nlocal   c{}  =  4\n", i).into_bytes(),
         }
@@ -1031,6 +1149,32 @@ pub fn c13(thorough: bool, stats: &mut Stats) -> Vec<Failure> {
             }
         }
     }
+    // --respect-ignores with files named explicitly in two directories whose ignore files differ (gen/.styluaignore excludes
+    // every Lua file of gen/, src/.styluaignore only skip*.lua): the ignored file counts for nothing, in either argument order
+    for k0 in [Kind::Formatted, Kind::Unformatted, Kind::Unparseable] {
+        for k1 in [Kind::Unformatted, Kind::Unparseable] {
+            for fmt in ["Standard", "Unified", "Json", "Summary"] {
+                for order in [0, 1] {
+                    for with_src_ignore in [false, true] {
+                        let mut t = Tree::default();
+                        t.add("src/a0.lua", &k0.bytes(0));
+                        t.add("gen/a1.lua", &k1.bytes(1));
+                        t.add("gen/.styluaignore", b"*.lua\n");
+                        if with_src_ignore {
+                            t.add("src/.styluaignore", b"skip*.lua\n");
+                        }
+                        let mut argv: Vec<String> = vec!["--check".into(), "--color".into(), "Never".into(), "--output-format".into(), fmt.into(), "--respect-ignores".into()];
+                        let mut ps = vec!["src/a0.lua".to_string(), "gen/a1.lua".to_string()];
+                        ps.rotate_left(order);
+                        argv.extend(ps);
+                        // (the kinds in the description are those of the files that count: the judge reads them from there)
+                        let desc = format!("C13 kinds={} layout=two-ignore-files rot={} format={} verify=false threads=default opt=respect-ignores(gen/a1.lua={},src-ignore-file={})", k0.letter(), order, fmt, k1.letter(), with_src_ignore);
+                        scs.push(Scenario { desc, tree: t, run: Run { argv, ..Run::default() } });
+                    }
+                }
+            }
+        }
+    }
     // the text comes from stdin (`-` is a file argument like any other as far as the status and the diff are concerned)
     for k in [Kind::Formatted, Kind::Unformatted, Kind::Unparseable, Kind::Crlf, Kind::NoEol] {
         for fmt in ["Standard", "Unified", "Json", "Summary"] {
@@ -1144,7 +1288,7 @@ pub fn unprivileged_supported() -> bool {
 }
 
 pub fn c14(thorough: bool, stats: &mut Stats) -> Vec<Failure> {
-    let mut alpha = vec![Kind::Unformatted, Kind::Formatted, Kind::Unparseable, Kind::VerifyFail, Kind::Crash, Kind::InvalidUtf8, Kind::Immutable, Kind::Unparseable2, Kind::SameLen, Kind::ReadOnlyFormatted, Kind::Blank];
+    let mut alpha = vec![Kind::Unformatted, Kind::Formatted, Kind::Unparseable, Kind::VerifyFail, Kind::Crash, Kind::InvalidUtf8, Kind::Immutable, Kind::Unparseable2, Kind::SameLen, Kind::ReadOnlyFormatted, Kind::Blank, Kind::Bom];
     if !immutable_supported() {
         // without a working immutable attribute the "unwritable" kind cannot be produced: leave it out and say so
         alpha.retain(|k| *k != Kind::Immutable);
@@ -1615,6 +1759,160 @@ pub fn c15_sections(stats: &mut Stats) -> Vec<Failure> {
     })
 }
 
+/// C15 addendum: `.editorconfig` files that exist only BELOW the working directory (none at or above it): the nearest one at or
+/// above the file's own directory applies — the question is asked per file, not once per run
+pub fn c15_below(stats: &mut Stats) -> Vec<Failure> {
+    let mut scs = vec![];
+    let ec = |n: usize| format!("root = true\n[*.lua]\nindent_style = space\nindent_size = {}\n", n);
+    // (has s/.editorconfig (size 2), has s/d/.editorconfig (size 3))
+    for (has_s, has_d) in [(true, false), (false, true), (true, true)] {
+        for (tname, args, stdin) in [
+            ("s/f.lua", vec!["s/f.lua"], false),
+            ("s/d/f.lua", vec!["s/d/f.lua"], false),
+            ("f.lua+s/f.lua", vec!["f.lua", "s/f.lua"], false),
+            ("s/d/f.lua+f.lua", vec!["s/d/f.lua", "f.lua"], false),
+            (".", vec!["."], false),
+            ("s", vec!["s"], false),
+            ("abs:s/d/f.lua", vec!["$ROOT/w/s/d/f.lua"], false),
+            ("stdin@s/f.lua", vec!["--stdin-filepath", "s/f.lua", "-"], true),
+            ("stdin@s/d/f.lua", vec!["--stdin-filepath", "s/d/f.lua", "-"], true),
+        ] {
+            for noec in [false, true] {
+                let mut t = Tree::default();
+                for f in ["w/f.lua", "w/s/f.lua", "w/s/d/f.lua"] {
+                    t.add(f, PROBE.as_bytes());
+                }
+                if has_s {
+                    t.add("w/s/.editorconfig", ec(2).as_bytes());
+                }
+                if has_d {
+                    t.add("w/s/d/.editorconfig", ec(3).as_bytes());
+                }
+                let mut argv: Vec<String> = vec!["--color".into(), "Never".into()];
+                if noec {
+                    argv.push("--no-editorconfig".into());
+                }
+                argv.extend(args.iter().map(|x| x.to_string()));
+                let desc = format!("C15 editorconfig-below-cwd s={} s/d={} target={} no_editorconfig={}", has_s, has_d, tname, noec);
+                scs.push(Scenario { desc, tree: t, run: Run { argv, cwd: "w".into(), stdin: if stdin { Some(PROBE.as_bytes().to_vec()) } else { None }, ..Run::default() } });
+            }
+        }
+    }
+    run_all(scs, "E2-C15", stats, |s, o| {
+        let mut f = vec![];
+        if o.code != 0 {
+            f.push(("exit-status".into(), format!("exit {}", o.code)));
+        }
+        let has_s = s.desc.contains(" s=true");
+        let has_d = s.desc.contains(" s/d=true");
+        let noec = s.desc.ends_with("no_editorconfig=true");
+        let target = s.desc.split("target=").nth(1).unwrap().split(' ').next().unwrap().to_string();
+        // level of a file: 1 = w/, 2 = w/s/, 3 = w/s/d/
+        let want = |level: usize| -> Option<usize> {
+            if noec {
+                return Some(0);
+            }
+            if level >= 3 && has_d {
+                return Some(3);
+            }
+            if level >= 2 && has_s {
+                return Some(2);
+            }
+            Some(0)
+        };
+        if s.run.stdin.is_some() {
+            let level = if target.contains("s/d/") { 3 } else { 2 };
+            let got = indent_of(&String::from_utf8_lossy(&o.stdout));
+            if got != want(level) {
+                f.push(("wrong-configuration".into(), format!("stdout: indentation {:?} (0 = tabs), the nearest .editorconfig at or above the path gives {:?}", got, want(level))));
+            }
+            return f;
+        }
+        for (p, level) in [("w/f.lua", 1usize), ("w/s/f.lua", 2), ("w/s/d/f.lua", 3)] {
+            let rel = &p[2..];
+            let selected = target == "." || target.split('+').any(|a| a.trim_start_matches("abs:") == rel) || (target == "s" && level >= 2);
+            let text = String::from_utf8_lossy(&o.after[p].0).to_string();
+            if !selected {
+                if text != PROBE {
+                    f.push(("unselected-file-changed".into(), format!("{} changed", p)));
+                }
+                continue;
+            }
+            let got = indent_of(&text);
+            if got != want(level) {
+                f.push(("wrong-configuration".into(), format!("{}: indentation {:?} (0 = tabs), the nearest .editorconfig at or above its directory gives {:?}", p, got, want(level))));
+            }
+        }
+        f
+    })
+}
+
+/// C16 addendum: names a shell user can meet but a string-minded program may trip over — a byte that is not UTF-8 in a file or
+/// directory name, a space, a non-ASCII (valid) name, a leading dash: every Lua file below the argument is processed, once
+pub fn c16_names(stats: &mut Stats) -> Vec<Failure> {
+    let mut scs = vec![];
+    let files = ["src/café.lua", "src/données/plain.lua", "src/sp ace.lua", "src/ünï.lua", "src/-dash.lua", "src/plain.lua", "src/données/note.txt"];
+    for (aname, args) in [(".", vec!["."]), ("src", vec!["src"]), ("-- src", vec!["--", "src"]), ("abs", vec!["$ROOT/src"])] {
+        for mode in ["write", "check-summary", "check-json"] {
+            for (gname, gargs) in [("none", vec![]), ("**/*.lua", vec!["-g", "**/*.lua"])] {
+                let mut t = Tree::default();
+                for f in files {
+                    t.add(f, UNF.as_bytes());
+                }
+                let mut argv: Vec<String> = vec!["--color".into(), "Never".into()];
+                match mode {
+                    "check-summary" => argv.extend(["--check".to_string(), "--output-format".to_string(), "Summary".to_string()]),
+                    "check-json" => argv.extend(["--check".to_string(), "--output-format".to_string(), "Json".to_string()]),
+                    _ => {}
+                }
+                argv.extend(gargs.iter().map(|x| x.to_string()));
+                argv.extend(args.iter().map(|x| x.to_string()));
+                let desc = format!("C16 odd-names args={} mode={} glob={}", aname, mode, gname);
+                // the file first, then its directory
+                let post = vec![("src/café.lua".to_string(), "latin1".to_string()), ("src/données".to_string(), "latin1".to_string())];
+                scs.push(Scenario { desc, tree: t, run: Run { argv, post, ..Run::default() } });
+            }
+        }
+    }
+    run_all(scs, "E2-C16", stats, |s, o| {
+        let mut f = vec![];
+        let check = s.desc.contains("mode=check");
+        let lua: Vec<&String> = o.before.keys().filter(|k| k.ends_with(".lua")).collect();
+        if lua.len() != 6 {
+            f.push(("machinery".into(), format!("the tree holds {} Lua files, 6 were meant", lua.len())));
+            return f;
+        }
+        if check {
+            if o.code != 1 {
+                f.push(("exit-status".into(), format!("exit {} (6 unformatted files selected, expected 1): {}", o.code, String::from_utf8_lossy(&o.stderr).chars().take(160).collect::<String>())));
+            }
+            let out = String::from_utf8_lossy(&o.stdout).to_string();
+            let n = if s.desc.contains("check-json") { out.lines().filter(|l| l.contains("\"mismatches\"")).count() } else { out.lines().filter(|l| l.trim_end().ends_with(".lua")).count() };
+            if n != 6 {
+                f.push(("wrong-selection".into(), format!("{} files reported, 6 Lua files are selected", n)));
+            }
+            if o.before != o.after {
+                f.push(("check-wrote".into(), "the tree changed in --check mode".into()));
+            }
+        } else {
+            if o.code != 0 {
+                f.push(("exit-status".into(), format!("exit {}: {}", o.code, String::from_utf8_lossy(&o.stderr).chars().take(160).collect::<String>())));
+            }
+            for k in lua {
+                if o.after.get(k).map(|x| x.0.as_slice()) != Some(b"local x = 1\n".as_slice()) {
+                    f.push(("wrong-selection".into(), format!("selected but not formatted: {:?}", k)));
+                }
+            }
+            for (k, v) in &o.after {
+                if !k.ends_with(".lua") && o.before.get(k) != Some(v) {
+                    f.push(("other-file-touched".into(), format!("{} changed", k)));
+                }
+            }
+        }
+        f
+    })
+}
+
 // ======================================================================================================== C16
 pub const C16_FILES: &[&str] = &["a.lua", "b.luau", "c.txt", ".h.lua", "s/d.lua", "s/.g/e.lua", "v/v.lua", "s/t/u.lua", "s/a.lua", "s/c.txt"];
 /// symbolic links in the tree: a link to a file (selected like a file, but it IS its target: processed once), and a link to a
@@ -1836,6 +2134,7 @@ pub fn c16(thorough: bool, stats: &mut Stats) -> Vec<Failure> {
     }
     let idx: std::collections::HashMap<String, usize> = scs.iter().enumerate().map(|(i, s)| (s.desc.clone(), i)).collect();
     let mut outside = c16_outside(stats);
+    outside.extend(c16_names(stats));
     let mut all = run_all(scs, "E2-C16", stats, |s, o| {
         let mut f = vec![];
         let (args, ign, globs, respect, hidden, mode) = &metas[idx[&s.desc]];
@@ -2025,6 +2324,20 @@ pub fn c17(thorough: bool, stats: &mut Stats) -> Vec<Failure> {
             v
         }),
     ];
+    // a multi-byte character across every offset of the form k * 4 KiB, k a power of two (where a chunked reader would cut)
+    for boundary in [4096usize, 8192, 16384, 32768, 65536] {
+        for ch in ["é", "€", "😀"] {
+            for split in 1..ch.len() {
+                let head = "-- ";
+                let mut v = head.as_bytes().to_vec();
+                v.extend(std::iter::repeat(b'a').take(boundary - split - head.len()));
+                v.extend_from_slice(ch.as_bytes());
+                v.extend_from_slice(b"\nlocal   x  =  1\n");
+                let name: &'static str = Box::leak(format!("utf8@{}-{}/{}", boundary, split, ch.len()).into_boxed_str());
+                inputs.push((name, v));
+            }
+        }
+    }
     if thorough {
         inputs.push(("4MiB", big(4)));
         inputs.push(("16MiB", big(16)));
@@ -2060,6 +2373,9 @@ pub fn c17(thorough: bool, stats: &mut Stats) -> Vec<Failure> {
         // an .editorconfig is present in these two (stylua.toml, when there, still comes first)
         ("editorconfig", vec![]),
         ("no-editorconfig", vec!["--no-editorconfig"]),
+        // the JSON format without --check (editor integrations ask for machine-readable errors): the text still goes to stdout
+        ("json-no-check", vec!["--output-format", "Json"]),
+        ("verbose", vec!["--verbose"]),
     ];
     let filepaths: Vec<(&str, Vec<&str>)> = vec![
         ("none", vec![]),
@@ -2082,7 +2398,7 @@ pub fn c17(thorough: bool, stats: &mut Stats) -> Vec<Failure> {
         for (oname, oargs) in &opt_sets {
             for (fname, fargs) in &filepaths {
                 for with_cfg in [false, true] {
-                    if bytes.len() > 100_000 && (*oname != "plain" || !matches!(*fname, "none" | "ignored.lua+respect") || with_cfg) {
+                    if (bytes.len() > 100_000 || iname.starts_with("utf8@")) && (*oname != "plain" || !matches!(*fname, "none" | "ignored.lua+respect") || with_cfg) {
                         continue;
                     }
                     // which configuration governs a path outside the working directory is C15's subject: defaults only here
@@ -2126,7 +2442,7 @@ pub fn c17(thorough: bool, stats: &mut Stats) -> Vec<Failure> {
                     scs.push(Scenario { desc, tree: t.clone(), run: Run { argv: argv.clone(), stdin: Some(bytes.clone()), env, ..Run::default() } });
                     // the same from a sub-directory with --search-parent-directories: the configuration (and the ignore
                     // file) of the parent must be found
-                    if bytes.len() < 100_000 && *oname == "plain" {
+                    if bytes.len() < 100_000 && *oname == "plain" && !iname.starts_with("utf8@") {
                         let mut argv2 = argv.clone();
                         argv2.insert(2, "--search-parent-directories".into());
                         let desc = format!("C17 input={} options=plain+search-parents(cwd=deep/er) stdin_filepath={} stylua.toml={}", iname, fname, with_cfg);
@@ -2597,6 +2913,41 @@ pub fn c20(_thorough: bool, stats: &mut Stats) -> Vec<Failure> {
             scs.push(Scenario { desc, tree: t, run: Run { argv, ..Run::default() } });
         }
     }
+    // the carrier lives in a SUB-directory (nothing at or above the working directory), next to the file; and next to a symbolic
+    // link whose target lives elsewhere (the option is written where the name given on the command line lives)
+    for (w, v) in &all {
+        for carrier in ["stylua.toml", ".editorconfig"] {
+            let text = match (carrier, &v.ec) {
+                ("stylua.toml", _) => format!("{}\n", v.toml),
+                (_, Some((k, val))) => format!("root = true\n[*.lua]\n{} = {}\n", k, val),
+                _ => continue,
+            };
+            for (tname, targs, stdin) in [("sub/f.lua", vec!["sub/f.lua"], false), ("sub", vec!["sub"], false), ("stdin@sub/f.lua", vec!["--stdin-filepath", "sub/f.lua", "-"], true)] {
+                let mut t = Tree::default();
+                t.add("sub/f.lua", probe.as_bytes());
+                t.add(&format!("sub/{}", carrier), text.as_bytes());
+                let mut argv: Vec<String> = vec!["--color".into(), "Never".into()];
+                argv.extend(targs.iter().map(|x| x.to_string()));
+                let desc = format!("C20 option={} carrier={}(in-sub) value={:?} width={} target={}", v.opt, carrier, v.toml, w, tname);
+                if metas.iter().any(|m| m.0 == desc) {
+                    continue;
+                }
+                metas.push((desc.clone(), *w, v.cfg, false));
+                scs.push(Scenario { desc, tree: t, run: Run { argv, stdin: if stdin { Some(probe.as_bytes().to_vec()) } else { None }, ..Run::default() } });
+            }
+            // proj/f.lua is a link to ../shared/f.lua; the carrier sits in proj/, the program runs in proj/
+            let mut t = Tree::default();
+            t.add("shared/f.lua", probe.as_bytes());
+            t.link("proj/f.lua", "../shared/f.lua");
+            t.add(&format!("proj/{}", carrier), text.as_bytes());
+            let desc = format!("C20 option={} carrier={}(next-to-link) value={:?} width={} target=f.lua", v.opt, carrier, v.toml, w);
+            if metas.iter().any(|m| m.0 == desc) {
+                continue;
+            }
+            metas.push((desc.clone(), *w, v.cfg, false));
+            scs.push(Scenario { desc, tree: t, run: Run { argv: vec!["--color".into(), "Never".into(), "f.lua".into()], cwd: "proj".into(), ..Run::default() } });
+        }
+    }
     let idx: std::collections::HashMap<String, usize> = scs.iter().enumerate().map(|(i, s)| (s.desc.clone(), i)).collect();
     let probe_s = probe.to_string();
     run_all(scs, "E2-C20", stats, |s, o| {
@@ -2626,7 +2977,15 @@ pub fn c20(_thorough: bool, stats: &mut Stats) -> Vec<Failure> {
             f.push(("exit-status".into(), format!("exit {} (expected {}): {}", o.code, want_code, String::from_utf8_lossy(&o.stderr).chars().take(160).collect::<String>())));
             return f;
         }
-        let fpath = if s.desc.contains("carrier=.editorconfig(path-glob)") { "proj/src/f.lua" } else { "f.lua" };
+        let fpath = if s.desc.contains("carrier=.editorconfig(path-glob)") {
+            "proj/src/f.lua"
+        } else if s.desc.contains("(in-sub)") {
+            "sub/f.lua"
+        } else if s.desc.contains("(next-to-link)") {
+            "shared/f.lua"
+        } else {
+            "f.lua"
+        };
         let got = if s.run.stdin.is_some() { String::from_utf8_lossy(&o.stdout).to_string() } else { String::from_utf8_lossy(&o.after[fpath].0).to_string() };
         let exp = if s.run.stdin.is_some() && want_code == 2 { String::new() } else { exp };
         if got != exp {
